@@ -212,7 +212,7 @@ type ShadowResult struct {
 	Keep   []string
 	Moved  *big.Int
 	Burnt  *big.Int
-	Dest   *common.Address // stake destination of a termination
+	Dest   *common.Address             // stake destination of a termination
 	Req    map[common.Address]*big.Int // requested balances
 	Base   map[common.Address]*big.Int // what the probe took as the balance before the run (pre-state + escrow)
 }
